@@ -413,4 +413,8 @@ def find_codec_info(encoding: str, custom_codecs: Optional[Dict[str, CodecInfo]]
         codec_info = INBUILT_CODECS.get(encoding)
     if not codec_info:
         codec_info = lookup(encoding) # Will raise LookupError if not found
+        if not getattr(codec_info, '_is_text_encoding', True):
+            # Python also registers bytes-to-bytes and str-to-str codecs (hex, base64, zlib, rot13...).
+            # They cannot encode message text and fail with TypeError or AssertionError when tried.
+            raise LookupError(f'`{encoding}` is not a text encoding')
     return codec_info
